@@ -138,7 +138,7 @@ async def _get_result_for_early(
             await backend.set(key, [early_expire_at, result], expire=ttl, tags=tags)
         elif isinstance(cond_result, Exception):
             await backend.set(key, [early_expire_at, RaiseException(result)], expire=ttl, tags=tags)
-        if _exc:
+        if _exc is not None:
             raise _exc
         return return_or_raise(result)
     finally:
